@@ -98,7 +98,7 @@ def gen_template(rng, features: Dict[str, int]):
         return ' '.join(str(rng.choice((rng.randrange(lo, hi), round(rng.uniform(lo, hi), 3)))) for _ in range(3))
     face_ids = [f.id for s in tmpl.brushes for f in s.sides] + [f.id for e in tmpl.entities for s in e.solids for f in s.sides]
     for _ in range(rng.choice((0, 1, 2, 3))):
-        kind = rng.choice(('beam', 'hinge', 'overlay', 'door', 'spot', 'sun', 'nodes', 'follow', 'cubemap'))
+        kind = rng.choice(('beam', 'hinge', 'overlay', 'door', 'spot', 'sun', 'nodes', 'follow', 'cubemap', 'movedir', 'movedir'))
         keys = {'origin': v3()}
         if rng.random() < 0.7:
             keys['angles'] = f'{rng.randrange(-70, 70)} {rng.randrange(0, 360)} {rng.choice((0, 0, 45, 180))}'
@@ -125,6 +125,11 @@ def gen_template(rng, features: Dict[str, int]):
             tmpl.add_ent(n2)
             a, b = n1['nodeid'], n2['nodeid']  # the map may have handed out other IDs than the ones asked for
             keys = {'classname': 'info_node_link', 'origin': v3(), 'startnode': a, 'endnode': rng.choice((b, a, '99'))}
+        elif kind == 'movedir':
+            # an orientation stored in a key other than "angles" (0 0 0, the FGD default "along +X", is the common value)
+            cls, key = rng.choice((('func_door', 'movedir'), ('trigger_push', 'pushdir'), ('env_blood', 'spraydir'), ('prop_door_rotating', 'ajarangles')))
+            val = rng.choice(('0 0 0', '0 0 0', '0 90 0', '-90 0 0', f'{rng.randrange(-80, 80)} {rng.randrange(0, 360)} 0', '0 270 15'))
+            keys.update({'classname': cls, key: val})
         elif kind == 'follow':
             keys.update(classname='ai_goal_follow', actor=rng.choice(('npc_citizen', 'NPC_Citizen', 'Door_A', '!player', 'relay')), goal='tgt')
         tmpl.add_ent(Entity(tmpl, keys=keys))
@@ -413,6 +418,16 @@ class Collapser:
                             self.fail(f'{label}: position key {k}={new_val!r} is not R*p+o = {want}', 'typed-key-position', {'template': old, 'type': t.name})
                             return
                         self.run.count('typed_positions_checked')
+                    elif t.name == 'ANGLES':
+                        a1 = tuple(float(x) for x in sub.split())
+                        want_m = mmul(model_matrix(*a1), R)
+                        got_a = tuple(float(x) for x in new_val.split())
+                        h = horiz(want_m)
+                        if len(got_a) != 3 or maxdiff(model_matrix(*got_a), want_m) > (1e-5 if h > 0.001 else 2 * h + 1e-5):
+                            self.fail(f'{label}: angle key {k}={new_val!r} is not the template value {old!r} composed with the instance rotation {ang}',
+                                      'typed-key-angles', {'template': old})
+                            return
+                        self.run.count('typed_angle_keys_checked')
                     elif t.name == 'EXT_VEC_DIRECTION':
                         want = vmul(tuple(float(x) for x in sub.split()), R)
                         got = tuple(float(x) for x in new_val.split())
@@ -678,7 +693,7 @@ def main(run, shard=(0, 1)) -> None:
             nested_names(run, sub_rng(run.seed, 'nested', i), i)
     probe.report(run)
     probe.check_reached(run)
-    run.require('collapses', 'hidden_entity_brushes_checked', 'nested_name_maps', 'nested_copies_checked', 'nested_fixup_values_checked', 'collapses_keeping_visgroups', 'collapsed_copies_mutated', 'typed_positions_checked', 'typed_directions_checked', 'typed_axes_checked', 'typed_sidelists_checked', 'typed_nodeids_checked', 'typed_name_or_class_checked', 'typed_pitch_checked', 'plane_points_checked', 'texture_projections_checked', 'origins_checked', 'orientations_checked',
+    run.require('collapses', 'hidden_entity_brushes_checked', 'nested_name_maps', 'nested_copies_checked', 'nested_fixup_values_checked', 'collapses_keeping_visgroups', 'collapsed_copies_mutated', 'typed_positions_checked', 'typed_angle_keys_checked', 'typed_directions_checked', 'typed_axes_checked', 'typed_sidelists_checked', 'typed_nodeids_checked', 'typed_name_or_class_checked', 'typed_pitch_checked', 'plane_points_checked', 'texture_projections_checked', 'origins_checked', 'orientations_checked',
                 'names_checked', 'substitutions_checked', 'template_snapshots_compared', 'collapse_all_runs', 'displacements_checked')
 
 
